@@ -22,4 +22,4 @@ if __name__ == "__main__":
                            ["exact-rational semantics stands for float semantics up to rounding",
                             "remainders below FLOAT_ACCURACY that the code drops by design count as dust (tolerance 1e-9 on exact values)",
                             "treatment parameters are well-formed (constant x temperature factor + liquor multiplier <= 1)"],
-                           n_quick=160, ndates=5, corr=[("net", 250, 2500, 8), ("tarea", 200, 2000, 8)], extra=probes))
+                           n_quick=160, ndates=5, corr=[("net", 250, 2500, 8), ("tarea", 200, 2000, 8), ("wtw", 200, 2000, 8), ("demand", 150, 1500, 8), ("land", 120, 1000, 6)], extra=probes))
